@@ -119,12 +119,19 @@ impl<V: Cv> Job for Task<V> {
                 }
             }
         }
-        // 1. driver
-        let st = check_op(&self.entry, &inputs, &opts, seed, rep);
-        // 3. malicious prover
-        let mut a = AtkStats::default();
+        // 1. driver (every output edit re-evaluates the whole table: fewer positions on big circuits)
         let rel = mzv::engines::catalogue::OpRel(self.entry.clone());
         let k = catch_any(|| midnight_zk_stdlib::MidnightCircuit::new(&rel, midnight_proofs::circuit::Value::unknown(), midnight_proofs::circuit::Value::unknown(), Some(8)).min_k()).unwrap_or(0);
+        if k >= 14 {
+            opts.max_positions = if thorough { 4 } else { 2 };
+        }
+        let t_d = std::time::Instant::now();
+        let st = check_op(&self.entry, &inputs, &opts, seed, rep);
+        if std::env::var("MZV_C06_TIMING").is_ok() {
+            eprintln!("[c06-timing] {name}: driver {:.1}s", t_d.elapsed().as_secs_f64());
+        }
+        // 3. malicious prover
+        let mut a = AtkStats::default();
         if self.attack && k > 0 {
             for (i, inp) in inputs.iter().enumerate() {
                 let idx = only_input.unwrap_or(0) + i;
@@ -583,18 +590,18 @@ fn main() {
         foreign_small: if thorough {
             ArsBudget { restarts: xu("fs-restarts", 8), nodes_per_restart: xu("fs-nodes", 300), max_changed: 48 }
         } else {
-            ArsBudget { restarts: xu("fs-restarts", 4), nodes_per_restart: xu("fs-nodes", 40), max_changed: 24 }
+            ArsBudget { restarts: xu("fs-restarts", 5), nodes_per_restart: xu("fs-nodes", 60), max_changed: 24 }
         },
         big: if thorough {
             ArsBudget { restarts: xu("big-restarts", 3), nodes_per_restart: xu("big-nodes", 24), max_changed: 32 }
         } else {
-            ArsBudget { restarts: xu("big-restarts", 2), nodes_per_restart: xu("big-nodes", 6), max_changed: 16 }
+            ArsBudget { restarts: xu("big-restarts", 3), nodes_per_restart: xu("big-nodes", 12), max_changed: 16 }
         },
         real_k_max: 12,
         max_targets: if thorough { 40 } else { 12 },
-        max_targets_foreign: xu("f-targets", if thorough { 16 } else { 8 }),
-        max_targets_big: xu("big-targets", if thorough { 8 } else { 4 }),
-        hint_cells: xu("hint-cells", if thorough { 8 } else { 2 }),
+        max_targets_foreign: xu("f-targets", if thorough { 16 } else { 10 }),
+        max_targets_big: xu("big-targets", if thorough { 8 } else { 6 }),
+        hint_cells: xu("hint-cells", if thorough { 8 } else { 3 }),
     };
     rep.set(
         "ars_budgets",
